@@ -36,6 +36,7 @@ MAP = [
     ("minimum searches over k must go beyond the number of edges when constraints", "C03", "MinFlowDecomp / MinFlowDecompCycles / MinPathCoverCycles reported 'not solved' when the constrained optimum exceeds the number of edges (hub with 4 in- and 2 out-edges, all 8 pairs constrained: optimum 8 > 6) (also C04, C09, C10)"),
     ("path-length and edge-position variables must not be integer", "C10", "kMinPathError with a length attribute holding non-integral edge lengths was always infeasible: path-length / edge-position variables were declared integer although they are sums of edge lengths"),
     ("MinSetCover must not drop a selected subset", "C15", "MinSetCover.solve() compared the solver values of its 0/1 variables with == 1: a selected subset returned as 0.9999999999999999 was dropped and the returned index list was not a cover (universe 0..5, 8 weighted subsets; found by the thorough tier, now in the quick corpus)"),
+    ("kMinPathError slack bound must account for path-length factors below 1", "C08", "kMinPathError with path_length_factors containing a factor < 1 was infeasible for k >= width when the needed slack error/factor exceeds w_max (chain with flows 1,1,0,0, factors [1.0,0.5], k=1); found by the thorough tier, now in the quick corpus"),
     ("MinErrorFlow with few_flow_values_epsilon on node-weighted", "C16", "MinErrorFlow(flow_attr_origin='node', few_flow_values_epsilon>0) raised KeyError"),
 ]
 def main():
